@@ -155,6 +155,10 @@ class ConnFamily(Family):
             yield racy(rng, c) if i % 4 == 0 else c
 
     def impl(self, case):
+        if case.get("newloop") and _LOOP is not None and not _LOOP.is_closed():
+            # the server is started again in the same process (a test suite, a supervisor restarting it, an embedding
+            # application): the connection of this case is served by a NEW event loop, the previous one is closed
+            _LOOP.close()
         loop = get_loop()
         return loop.run_until_complete(sim.run_conn(loop, case))
 
